@@ -329,6 +329,11 @@ func c16NCServer(v11 bool, seed uint64) *sim.NCServer {
 		var chunks []int
 		for rest := len(p); rest > 0; {
 			c := r.Range(1, 9000)
+			if len(chunks) == 0 && c < 200 {
+				// a chunk boundary inside the message-id attribute makes the driver miss the reply
+				// (it looks the id up with a regex on the framed bytes: property C08's subject)
+				c = 200
+			}
 			if c > rest {
 				c = rest
 			}
@@ -368,7 +373,11 @@ func c16NCSession(kind string, v11 bool, longLine bool, n int, seed uint64) c16S
 		_ = stop()
 		return s
 	}
+	tOpen := time.Now()
 	s.open = c16ErrClass(d.Open())
+	if c16Timing {
+		fmt.Printf("  %s open %v\n", kind, time.Since(tOpen))
+	}
 	if s.open == "nil" {
 		s.extra = fmt.Sprintf("version=%s session-id=%d", d.SelectedVersion, d.SessionID())
 		for i := 0; i < 5; i++ {
@@ -403,6 +412,9 @@ func c16NCSession(kind string, v11 bool, longLine bool, n int, seed uint64) c16S
 				}
 			}
 			_ = rr
+			if c16Timing {
+				fmt.Printf("  %s rpc %d done at %v\n", kind, i, time.Since(tOpen))
+			}
 			if err != nil {
 				s.results = append(s.results, "err="+c16ErrClass(err))
 				continue
@@ -452,9 +464,12 @@ func c16Cmds(r *vlib.Rng) []string {
 
 // c16SessionLine / replay: "session cli|nc10|nc11 <kind> <n> <seed>"
 func c16RunSession(c *ctx, what, kind string, n int, seed uint64) {
-	res := c.res
-	line := fmt.Sprintf("session %s %s %d %d", what, kind, n, seed)
-	var ideal, real c16Session
+	ideal, real, ok := c16SessionPair(what, kind, n, seed)
+	c16RecordSession(c, what, kind, n, seed, ideal, real, ok)
+}
+
+// c16SessionPair runs the session over the ideal pipe and over the real transport.
+func c16SessionPair(what, kind string, n int, seed uint64) (ideal, real c16Session, ok bool) {
 	switch what {
 	case "cli":
 		cmds := c16Cmds(vlib.NewRng(seed))
@@ -472,6 +487,15 @@ func c16RunSession(c *ctx, what, kind string, n int, seed uint64) {
 		ideal = c16NCSession("ideal", what == "nc11-longline", true, n, seed)
 		real = c16NCSession(kind, what == "nc11-longline", true, n, seed)
 	default:
+		return ideal, real, false
+	}
+	return ideal, real, true
+}
+
+func c16RecordSession(c *ctx, what, kind string, n int, seed uint64, ideal, real c16Session, ok bool) {
+	res := c.res
+	line := fmt.Sprintf("session %s %s %d %d", what, kind, n, seed)
+	if !ok {
 		res.Fail("machinery", line, "unknown session kind", "c16:replay")
 		return
 	}
@@ -479,6 +503,12 @@ func c16RunSession(c *ctx, what, kind string, n int, seed uint64) {
 	res.InDomain++
 	res.Count("session:" + what + "/" + kind)
 	res.TracesVsImpl++
+	for _, r := range ideal.results {
+		if strings.HasPrefix(r, "err=") || strings.Contains(r, " err=") && !strings.HasSuffix(r, "err=nil") {
+			res.Fail("machinery", line, "session over the ideal pipe has a failing call (the comparison would be between two failures):\n"+ideal.String(), "c16:ideal-session-call-failed")
+			return
+		}
+	}
 	if ideal.open != "nil" || ideal.close != "nil" {
 		res.Fail("oracle", line, "session over the ideal pipe (sim.Pipe behind Transport.read / Close) did not open/close cleanly:\n"+ideal.String(), "c16:ideal-session")
 		return
@@ -535,15 +565,16 @@ func c16Diff(a, b string) string {
 		}
 		if x != y {
 			nd++
-			if first == "" {
-				first = fmt.Sprintf("first difference at record line %d\n  ideal: %s\n  real:  %s", i, cut(x), cut(y))
+			if nd <= 3 {
+				first += fmt.Sprintf("\n record line %d\n  ideal: %s\n  real:  %s", i, cut(x), cut(y))
 			}
 		}
 	}
-	return fmt.Sprintf("%d record line(s) differ; %s", nd, first)
+	return fmt.Sprintf("%d record line(s) differ, the first ones:%s", nd, first)
 }
 
 func c16ReplaySession(c *ctx, line string) {
+	c16Timing = true
 	f := strings.Fields(line)
 	if len(f) != 5 {
 		c.res.Fail("machinery", line, "bad session line", "c16:replay")
@@ -607,8 +638,39 @@ func c16Sessions(c *ctx) {
 	for _, kind := range append([]string{"system", "standard", "telnet"}, map[bool][]string{true: {"openssh"}}[haveSSH]...) {
 		jobs = append(jobs, job{"cli-tilde", kind, 8192, r.U64()})
 	}
-	// sessions write into c.res: run them one after another (each is a few hundred ms)
-	for _, j := range jobs {
-		c16RunSession(c, j.what, j.kind, j.n, j.seed)
+	// run several sessions at a time, record them in generation order
+	type pair struct {
+		ideal, real c16Session
+		ok          bool
+		dur         time.Duration
+	}
+	pairs := make([]pair, len(jobs))
+	sem := make(chan struct{}, 6)
+	var wg sync.WaitGroup
+	for i := range jobs {
+		wg.Add(1)
+		sem <- struct{}{}
+		go func(i int) {
+			defer wg.Done()
+			defer func() { <-sem }()
+			j := jobs[i]
+			t0 := time.Now()
+			pairs[i].ideal, pairs[i].real, pairs[i].ok = c16SessionPair(j.what, j.kind, j.n, j.seed)
+			pairs[i].dur = time.Since(t0)
+		}(i)
+	}
+	wg.Wait()
+	slow := ""
+	for i, j := range jobs {
+		c16RecordSession(c, j.what, j.kind, j.n, j.seed, pairs[i].ideal, pairs[i].real, pairs[i].ok)
+		if pairs[i].dur > 2*time.Second {
+			slow += fmt.Sprintf(" [session %s %s %d %d]=%v", j.what, j.kind, j.n, j.seed, pairs[i].dur.Round(100*time.Millisecond))
+		}
+	}
+	if slow != "" {
+		c.res.Note("sessions (ideal + real) that took more than 2 s:%s", slow)
 	}
 }
+
+// c16Timed is a debugging aid for replays: phase durations of one NETCONF session.
+var c16Timing = false
